@@ -34,7 +34,7 @@ def c02(ctx):
     ctx.extra["design_level"] = "MC_GenCache: all engine states within 4 plies of a K+3P seed: no two share (key, colour) with different answers; accumulate-mode control rejected"
     out = ctx.path("cache.ndjson")
     seeds_path = write_ndjson(ctx.path("seeds.ndjson"), seed_records(load_seeds()))
-    summ = harness(["record-cache", out, "--seed", ctx.seed, "--tree-depth", 4, "--seed-depth", 2 if quick else 3, "--games", 12 if quick else 200,
+    summ = harness(["record-cache", out, "--seed", ctx.seed, "--tree-depth", 4, "--seed-depth", 2 if quick else 3, "--deep-seeds", 3 if quick else 6, "--games", 12 if quick else 200,
                     "--plies", 80 if quick else 150, "--seeds", seeds_path, "--sample-one-in", 120 if quick else 300, "--attack-one-in", 60 if quick else 40], timeout=7200)
     r2 = ctx.run_tlc("Trace_Gen", "Trace_Gen.cfg", env={"TRACE": out}, workers=1, want_records=True, stack="64m", heap="2g", young="400m", timeout=3600)
     if r2.postcondition_failed or r2.distinct != summ["logged"] + 1:
